@@ -25,6 +25,9 @@ pub mod c20;
 pub mod c20b;
 
 pub fn run(ctx: &mut Ctx) -> bool {
+    // a single case (one parse, one run of the shell on the virtual system) that burns a minute of
+    // CPU on its thread does not terminate: reported as a violation with the case in flight
+    crate::util::start_watchdog(ctx.id.clone(), 60);
     match ctx.id.as_str() {
         "C01" => {
             ctx.rule = c01::RULE.into();
@@ -40,7 +43,6 @@ pub fn run(ctx: &mut Ctx) -> bool {
         }
         "C06" => {
             ctx.rule = c06::RULE.into();
-            crate::util::start_watchdog("C06".into(), 120);
             c06::run(ctx)
         }
         "C07" => {
@@ -91,7 +93,6 @@ pub fn run(ctx: &mut Ctx) -> bool {
         }
         "C17" => {
             ctx.rule = c17::RULE.into();
-            crate::util::start_watchdog("C17".into(), 120);
             c17::run(ctx)
         }
         "C18" => {
